@@ -95,6 +95,11 @@ class Acc:
         self.counters = collections.Counter()
         self.caps = []
         self.dims = {}
+        self.sets = collections.defaultdict(set)
+
+    def add(self, name, key):
+        """named set of distinct keys (e.g. state fingerprints), merged by union across shards"""
+        self.sets[name].add(key)
 
     def ev(self, n=1):
         self.evaluations += n
@@ -149,6 +154,7 @@ class Acc:
             "counters": dict(self.counters),
             "caps": self.caps,
             "dims": self.dims,
+            "sets": {k: v for k, v in self.sets.items()},
         }
 
 
@@ -163,6 +169,7 @@ def merge(results):
         "counters": collections.Counter(),
         "caps": [],
         "dims": {},
+        "sets": collections.defaultdict(set),
     }
     for r in results:
         tot["evaluations"] += r["evaluations"]
@@ -174,7 +181,12 @@ def merge(results):
         tot["counters"].update(r["counters"])
         tot["caps"].extend(r["caps"])
         for k, v in r["dims"].items():
-            tot["dims"].setdefault(k, v)
+            if isinstance(v, int) and isinstance(tot["dims"].get(k), int) and k.startswith("max_"):
+                tot["dims"][k] = max(tot["dims"][k], v)
+            else:
+                tot["dims"].setdefault(k, v)
+        for k, v in r.get("sets", {}).items():
+            tot["sets"][k] |= v
     return tot
 
 
@@ -200,6 +212,8 @@ def _worker(job):
         mod.run_shard(acc, shard, tier, seed)
         res = acc.result()
         res["wall"] = time.time() - t0
+        if os.environ.get("VERIF_DEBUG"):
+            print(f"  shard {jsonable(shard)} wall={res['wall']:.1f}s", file=sys.stderr)
         return ("ok", res)
     except BaseException as e:  # noqa
         frames = _pint_frames(e.__traceback__)
@@ -312,7 +326,7 @@ def finish(mod, tier, seed, tot, crashes, wall, extra_cov=None):
         "site_grammar": getattr(mod, "SITE_GRAMMAR", ""),
     }
     if level == "model_checking":
-        cov["states"] = int(tot["counters"].get("states", 0))
+        cov["states"] = len(tot["sets"].get("states", ())) or int(tot["counters"].get("states", 0))
         cov["transitions"] = int(tot["counters"].get("transitions", 0))
         cov["traces_validated_against_impl"] = int(tot["counters"].get("traces_validated_against_impl", 0))
     if extra_cov:
